@@ -3,6 +3,7 @@
 package main
 
 import (
+	"bytes"
 	"fmt"
 	"math"
 	"math/big"
@@ -10,6 +11,7 @@ import (
 	"strings"
 
 	"github.com/google/pprof/internal/measurement"
+	"github.com/google/pprof/internal/report"
 	"github.com/google/pprof/profile"
 )
 
@@ -195,6 +197,38 @@ func runC15(c *Ctx) {
 		}
 		c.Case("pct", L(S("pct"), Z(v), Z(t)), S(measurement.Percentage(v, t)), t != 0 && v != 0, "op:pct")
 	}
+	// the text report (pprof -top) with -unit and divide_by: flat/cum labels are the scaled values,
+	// the three percentage columns are |value| / total of the UNSCALED values
+	for k := 0; k < c.Budget(250, 8000); k++ {
+		n := 1 + c.R.Intn(5)
+		var names []string
+		var vs []int64
+		used := map[int64]bool{}
+		for len(vs) < n {
+			v := int64(1 + c.R.Intn(5000))
+			if c.R.P(1, 4) {
+				v = PickI(c.R, []int64{1, 7, 999, 1000, 1024, 1 << 20, 1<<30 + 1, 123456789012, 1 << 50})
+			}
+			if used[v] {
+				continue
+			}
+			used[v] = true
+			if c.R.P(1, 5) {
+				v = -v
+			}
+			vs = append(vs, v)
+			names = append(names, fmt.Sprintf("f%d", len(vs)))
+		}
+		unit := PickS(c.R, []string{"bytes", "kb", "ns", "ms", "seconds", "count", "widgets", "gcu", "milligcu", "MB"})
+		out := PickS(c.R, []string{"auto", "minimum", "", "kb", "mb", "gb", "us", "s", "hrs", "widgets", "bytes", "kilogcu"})
+		ratio := []float64{0, 1, 0.5, 0.25, 2, 4, 0.1, 1.0 / 3, 0.001, 1.5}[c.R.Intn(10)]
+		in := []Term{}
+		for i := range vs {
+			in = append(in, L(S(names[i]), Z(vs[i])))
+		}
+		c.Case("toptext", L(S("toptext"), L(in...), S(unit), S(out), Rat(ratio)), c15TopText(names, vs, unit, out, ratio), true,
+			"op:toptext", fmt.Sprintf("ratio:%v", ratio))
+	}
 	// CommonValueType over lists of (type, unit)
 	types := []string{"cpu", "cpus", "space", "alloc", "", "s"}
 	for k := 0; k < c.Budget(300, 10000); k++ {
@@ -259,4 +293,42 @@ func runC15(c *Ctx) {
 		}
 		c.Case("common-family", L(S("common"), L(in...)), obs, true, "op:common")
 	}
+}
+
+// c15TopText renders the text report of a profile with one single-frame sample per name and
+// returns its rows: flat label, flat%, sum%, cum label, cum%, name.
+func c15TopText(names []string, vals []int64, unit, out string, ratio float64) (res Term) {
+	defer func() {
+		if r := recover(); r != nil {
+			res = L(S("panic"), S(fmt.Sprint(r)))
+		}
+	}()
+	p := &profile.Profile{SampleType: []*profile.ValueType{{Type: "v", Unit: unit}}}
+	for i, n := range names {
+		f := &profile.Function{ID: uint64(i + 1), Name: n, SystemName: n}
+		l := &profile.Location{ID: uint64(i + 1), Line: []profile.Line{{Function: f}}} // no address, no line: the entry is named by the function
+		p.Function = append(p.Function, f)
+		p.Location = append(p.Location, l)
+		p.Sample = append(p.Sample, &profile.Sample{Location: []*profile.Location{l}, Value: []int64{vals[i]}})
+	}
+	opt := &report.Options{OutputFormat: report.Text, SampleValue: func(v []int64) int64 { return v[0] },
+		SampleUnit: unit, OutputUnit: out, Ratio: ratio}
+	var buf bytes.Buffer
+	if err := report.Generate(&buf, report.New(p, opt), nil); err != nil {
+		return L(S("err"), S(err.Error()))
+	}
+	var rows []Term
+	started := false
+	for _, ln := range strings.Split(buf.String(), "\n") {
+		f := strings.Fields(ln)
+		if !started {
+			started = len(f) == 5 && f[0] == "flat" && f[1] == "flat%"
+			continue
+		}
+		if len(f) == 0 {
+			continue
+		}
+		rows = append(rows, Ss(f))
+	}
+	return L(S("ok"), L(rows...))
 }
